@@ -45,6 +45,9 @@ CHECKS = {
     'C07': dict(category='translation_validation', engine='Script', technique='TLA+ Script.tla programs of the common expression subset; build_fortran_definition output compiled with gfortran (ctypes stand-in for F2PY) and compared with the Python class and with the reference interpretation of the spec tree on evaluate / solve_t / solve',
                 text='Script.tla enumerates the programs; each is translated to Fortran, compiled and loaded as ENGINE of a FortranEngine subclass; evaluate must equal the Python class and the reference interpretation of the spec tree for every feasible period in both spellings; solve_t over all periods (incl. infeasible) and random option sets (offsets in/out of span, max_iter=0, min>max) and solve over default/explicit ranges must give the same return values, exception classes, statuses, iteration counts and values as the Python class, whose control behaviour is bound to Solver.tla by C02/C06.',
                 note='Trusted: gfortran; ctypes shim instead of F2PY (F2PY marshalling not exercised); finite data only; 1e-12 relative tolerance.', ref='7 (C07), 15.2'),
+    'C13': dict(category='exploration', engine='Splitter', technique='TLA+ Splitter.tla (character-class transcription of the statement splitter with the property as invariants): TLC enumerates every class string up to the bound; every concrete string over the 27-character alphabet is fed to the real parse_model with side-effect canaries and judged by the emitted legal-outcome set; spec-judged mutation fuzzing of valid scripts',
+                text='Splitter.tla consumes one character class at a time exactly like split_equations_iter (comments, fences, bracket depth, statement regex) and states C13_NoSilentDrop / C13_Outcome / C14_Independent; TLC enumerates all class strings (length <= 4 quick, <= 5 thorough, plus eight context heads) and emits for each the legal outcomes and statement extents; the harness expands each to all concrete strings, runs parse_model under a CPU-time alarm with canaries (print/open/sentinel call/np.geterr/warnings/cwd/module globals), requires a parser-own error or a model that builds, instantiates and has exactly the spec\'s statements, and also judges ~40 seed scripts and their mutants through the spec.',
+                note='Trusted: TLC; the documented expansion of classes to characters; exhaustive only to the stated length; longer inputs by context heads and fuzzing.', ref='6.8, 7 (C13)'),
 }
 
 NOT_YET = {}
